@@ -33,4 +33,9 @@ def convStep (N : Nat) (coeffs : List α) (taps : List α) (x : α) : List α ×
   let taps' := (pushLoop N (N + 1) taps x).1
   (taps', dot taps' coeffs.reverse)
 
+/-- `Convolve::normalized`: divide every coefficient by the coefficient sum unless that sum is zero -/
+def normalized [Div α] [BEq α] (coeffs : List α) : List α :=
+  let sum := coeffs.foldl (fun s c => s + c) 0
+  if sum == 0 then coeffs else coeffs.map (fun c => c / sum)
+
 end SignaloModel.Conv
